@@ -185,18 +185,19 @@ func instrument(modPath string, patterns []string, replace map[string]string) {
 }
 
 type rewriter struct {
-	fset    *token.FileSet
-	info    *types.Info
-	pkg     *packages.Package
-	file    *ast.File
-	skip    map[string]bool
-	counts  map[string]int
-	changed bool
-	needRT  bool
-	tmp     int
-	noTouch map[ast.Node]bool // comm statements of selects, handled by the select rewrite
-	recv2   map[ast.Node]bool // <-ch used in a two-value assignment
-	genBlk  map[*ast.BlockStmt]ast.Stmt
+	fset     *token.FileSet
+	info     *types.Info
+	pkg      *packages.Package
+	file     *ast.File
+	skip     map[string]bool
+	counts   map[string]int
+	changed  bool
+	needRT   bool
+	tmp      int
+	noTouch  map[ast.Node]bool // comm statements of selects, handled by the select rewrite
+	recv2    map[ast.Node]bool // <-ch used in a two-value assignment
+	tickerOK map[ast.Node]bool // time.NewTicker selectors whose result initialises a new variable
+	genBlk   map[*ast.BlockStmt]ast.Stmt
 }
 
 func (r *rewriter) name(p string) *ast.Ident {
@@ -280,6 +281,7 @@ func (r *rewriter) isChan(e ast.Expr) bool {
 func (r *rewriter) run() bool {
 	r.noTouch = map[ast.Node]bool{}
 	r.recv2 = map[ast.Node]bool{}
+	r.tickerOK = map[ast.Node]bool{}
 	r.genBlk = map[*ast.BlockStmt]ast.Stmt{}
 
 	// imports
@@ -314,6 +316,14 @@ func (r *rewriter) run() bool {
 				}
 			}
 		case *ast.AssignStmt:
+			if n.Tok == token.DEFINE && len(n.Lhs) == 1 && len(n.Rhs) == 1 {
+				// `t := time.NewTicker(d)`: the variable takes whatever type the call has, so the call can be replaced
+				if ce, ok := ast.Unparen(n.Rhs[0]).(*ast.CallExpr); ok {
+					if sel, ok := ce.Fun.(*ast.SelectorExpr); ok && sel.Sel.Name == "NewTicker" {
+						r.tickerOK[sel] = true
+					}
+				}
+			}
 			if len(n.Lhs) == 2 && len(n.Rhs) == 1 {
 				if u, ok := ast.Unparen(n.Rhs[0]).(*ast.UnaryExpr); ok && u.Op == token.ARROW {
 					r.recv2[u] = true
@@ -340,6 +350,16 @@ func (r *rewriter) run() bool {
 						r.mark("ctx-" + n.Sel.Name)
 					case "WithCancelCause", "WithTimeoutCause", "WithDeadlineCause", "AfterFunc":
 						r.fail(n, "context.%s is not supported by the instrumenter", n.Sel.Name)
+					}
+				}
+				if pn, ok := r.info.Uses[id].(*types.PkgName); ok && pn.Imported().Path() == "time" {
+					switch {
+					case n.Sel.Name == "Now":
+						c.Replace(rt("Now"))
+						r.mark("time-now")
+					case n.Sel.Name == "NewTicker" && r.tickerOK[n]:
+						c.Replace(rt("NewTicker"))
+						r.mark("time-ticker")
 					}
 				}
 				if pn, ok := r.info.Uses[id].(*types.PkgName); ok && pn.Imported().Path() == "sync/atomic" {
@@ -429,6 +449,14 @@ func (r *rewriter) run() bool {
 	astutil.Apply(r.file, pre, post)
 	if r.needRT {
 		astutil.AddImport(r.fset, r.file, "verifrt")
+	}
+	if r.changed && !astutil.UsesImport(r.file, "time") {
+		for _, im := range r.file.Imports {
+			if im.Path.Value == `"time"` && im.Name == nil {
+				astutil.DeleteImport(r.fset, r.file, "time")
+				break
+			}
+		}
 	}
 	if r.changed && !astutil.UsesImport(r.file, "context") {
 		// context.WithCancel & co were its only use
